@@ -13,7 +13,7 @@ MODULES = ["__init__.py", "hashstore.py", "filehashstore.py", "filehashstore_exc
 
 
 class Func:
-    __slots__ = ("qual", "node", "module", "cls", "parent", "is_static", "is_class")
+    __slots__ = ("qual", "node", "module", "cls", "parent", "is_static", "is_class", "is_ctxmgr")
 
     def __init__(self, qual, node, module, cls, parent=None):
         self.qual = qual
@@ -24,6 +24,7 @@ class Func:
         decos = [ast.unparse(d) for d in node.decorator_list]
         self.is_static = "staticmethod" in decos
         self.is_class = "classmethod" in decos
+        self.is_ctxmgr = any(d.endswith("contextmanager") for d in decos)
 
     @property
     def name(self):
@@ -118,7 +119,8 @@ class Program:
                 if isinstance(n, ast.FunctionDef):
                     for d in n.decorator_list:
                         ds = ast.unparse(d)
-                        if ds not in ("staticmethod", "classmethod", "abstractmethod", "property", "dataclass"):
+                        if ds not in ("staticmethod", "classmethod", "abstractmethod", "property", "dataclass",
+                                      "contextmanager", "contextlib.contextmanager"):
                             raise AnalysisError(f"{m.path}:{n.lineno}: decorator {ds} with unknown behaviour")
 
     def _exception_classes(self):
